@@ -24,11 +24,16 @@ class TalCheck(CheckBase):
     gen_opts: dict = {}
     plans_per_template = 40
     hold_exceptions = False
+    async_interrupts = 0        # positions per template (0 = off)
 
     def warmup(self) -> None:
         import_chameleon()
         from chameleon.zpt import template as zt
         self.zt = zt
+        if self.async_interrupts:
+            from .. import trace
+            trace.install()
+            self.trace = trace
 
     def budget(self, tier: str) -> dict:
         b = super().budget(tier)
@@ -162,6 +167,10 @@ class TalCheck(CheckBase):
                 violations.append(v)
             if self.is_nontrivial(plan, r, m):
                 nontrivial.append(short_hash([src, plan, hcfg]))
+        if self.async_interrupts and plans:
+            for v in self.async_sweep(case, tmpl, template, plans[0], stats,
+                                      cover, log):
+                violations.append(v)
         # an exception is a record of *its* failure: what it says must not
         # change because other renders failed afterwards
         for pi, plan, hcfg, e, s0 in held:
@@ -192,6 +201,87 @@ class TalCheck(CheckBase):
                 "cover": sorted(cover), "nontrivial": nontrivial,
                 "summary": {"source": src, "plans": len(plans),
                             "sites": len(tmpl["sites"])}}
+
+    def async_sweep(self, case, tmpl, template, plan0, stats, cover,
+                    log) -> list:
+        """Ctrl-C / sys.exit() from a signal handler / a cancelled worker:
+        KeyboardInterrupt or SystemExit delivered at the n-th distinct
+        source line (or n-th line event) executed inside the generated
+        code and chameleon's run-time modules during a render that would
+        otherwise succeed.  render() must raise exactly that - it must not
+        return, and nothing may turn it into (or replace it by) an
+        Exception."""
+        plan, hcfg = plan0
+        trace = self.trace
+        if "plans" not in case and case.get("plan_seed", 0) % 2:
+            return []           # (every second template: it is not cheap)
+        base = run_real(template, tmpl, plan, hcfg)
+        if base["raise"] is not None:
+            return []
+        trace.listening(True)
+        try:
+            return self._async_sweep(case, tmpl, template, plan, hcfg, stats,
+                                     cover, log)
+        finally:
+            trace.listening(False)
+
+    def _async_sweep(self, case, tmpl, template, plan, hcfg, stats, cover,
+                     log) -> list:
+        trace = self.trace
+        it = trace.Interrupt(10 ** 9, KeyboardInterrupt, distinct=True)
+        trace.arm_interrupt(it)
+        try:
+            run_real(template, tmpl, plan, hcfg)
+        finally:
+            trace.arm_interrupt(None)
+        counts = {"distinct": it.count, "raw": it.events}
+        ch = Choices(case.get("plan_seed", 1) ^ 0x5eed)
+        points = []
+        nd = counts["distinct"]
+        k = self.async_interrupts
+        if "plans" in case:
+            k = nd              # a pinned case (replay, minimisation): all
+        if nd <= k:
+            points += [("distinct", i + 1) for i in range(nd)]
+        else:
+            points += [("distinct", 1 + ch.choose(nd)) for _ in range(k)]
+        if counts["raw"] > nd:
+            points += [("raw", 1 + ch.choose(counts["raw"]))
+                       for _ in range(max(2, k // 4))]
+        out = []
+        for j, (mode, n) in enumerate(points):
+            cls = SystemExit if j % 3 == 2 else KeyboardInterrupt
+            it = trace.Interrupt(n, cls, distinct=mode == "distinct")
+            trace.arm_interrupt(it)
+            try:
+                r = run_real(template, tmpl, plan, hcfg)
+            finally:
+                trace.arm_interrupt(None)
+            if it.fired is None:
+                continue
+            stats["fired"]["async:" + cls.__name__] = \
+                stats["fired"].get("async:" + cls.__name__, 0) + 1
+            where = "%s:%s" % ("<generated>" if trace.GEN_RE.search(
+                it.fired[0]) else it.fired[0], it.fired[1])
+            cover.add("async@" + where.split(":")[0])
+            bad = None
+            if r["raise"] is None:
+                bad = ("interrupt-swallowed",
+                       f"render() returned {str(r['out'])[:200]!r}")
+            elif type(r["raise"][1]) is not cls:
+                bad = ("interrupt-replaced",
+                       f"render() raised {type(r['raise'][1]).__mro__}")
+            log.add("async", mode, n, cls.__name__, where, bad is None)
+            if bad is not None:
+                out.append({
+                    "kind": bad[0], "sig": bad[0],
+                    "detail": f"{cls.__name__} delivered at the {n}-th "
+                              f"{'distinct line' if mode == 'distinct' else 'line event'}"
+                              f" of a render ({where}, line {it.fired[2]}): "
+                              f"{bad[1]}",
+                    "plan_index": 0, "plan": plan, "handler": hcfg})
+                break
+        return out
 
     def is_nontrivial(self, plan, r, m) -> bool:
         return bool(r["raised"])
